@@ -97,7 +97,9 @@ theorem mutate_refused (o : Obj) (m : Mut) (e : Refusal) (h : (o.mutate m).2 = .
       by_cases hd : o.kind = .daily
       · simp [hd]
       · by_cases hc : 0 ≤ ts ∧ ts.toNat ∈ Gen.Ap.validTimesteps
-        · simp [hd, hc] at h
+        · by_cases hn : o.kind = .cont ∧ o.ap.timestep % ts.toNat ≠ 0
+          · simp [hd, hc, hn]
+          · simp [hd, hc, hn] at h
         · simp [hd, hc]
 
 /-! ### The slot invariant -/
@@ -145,6 +147,7 @@ theorem inv_same_fresh (o : Obj) (h : Inv o) : Same o o.pub.fresh := by
 def Faithful (o : Obj) : Op → Prop
   | .mut (.cull ts) =>
     o.kind = .cont → o.imm = false → (0 ≤ ts ∧ ts.toNat ∈ Gen.Ap.validTimesteps) →
+      o.ap.timestep % ts.toNat = 0 →
       cullDts ts.toNat o.datetimes = contDts { o.ap with timestep := ts.toNat }
   | _ => True
 
@@ -180,11 +183,18 @@ theorem inv_mutate (o : Obj) (m : Mut) (h : Inv o) (hf : Faithful o (.mut m)) : 
       · simp only [hd, ↓reduceIte]; exact h
       · by_cases hc : 0 ≤ ts ∧ ts.toNat ∈ Gen.Ap.validTimesteps
         · simp only [hd, hc, and_self, ↓reduceIte]
-          intro hk d hdd
-          have := hf hk (by simpa using hi) hc
-          have hdd' : cullDts ts.toNat o.datetimes = d := Option.some.inj hdd
-          rw [← hdd', this]
-          simp
+          by_cases hn : o.kind = .cont ∧ o.ap.timestep % ts.toNat ≠ 0
+          · rw [if_pos hn]; exact h
+          · rw [if_neg hn]
+            intro hk d hdd
+            have hdiv : o.ap.timestep % ts.toNat = 0 := by
+              by_cases h0 : o.ap.timestep % ts.toNat = 0
+              · exact h0
+              · exact absurd ⟨hk, h0⟩ hn
+            have := hf hk (by simpa using hi) hc hdiv
+            have hdd' : cullDts ts.toNat o.datetimes = d := Option.some.inj hdd
+            rw [← hdd', this]
+            simp
         · simp only [hd, hc, ↓reduceIte]; exact h
 
 theorem inv_step (o : Obj) (op : Op) (h : Inv o) (hf : Faithful o op) : Inv (o.step op).1 := by
